@@ -99,6 +99,10 @@ structure Cfg where
   had, after `reset_cache()` only (false): what earlier runs / steps wrote into that clone — equation overrides,
   points, run specs — survives a re-registration that no longer lists it. -/
   reregFreshClone : Bool
+  /-- `begin_session` (and the replay of a restored session) applies the settings given for (manager, scenario) to exactly
+  that scenario (true; `settings[manager][scenario]`), or merges the settings of all managers of the session into one
+  dictionary keyed by the scenario NAME (false): settings addressed to `smA/base` are then also configured on `smB/base`. -/
+  sessionAddressesPair : Bool
 deriving DecidableEq, Repr
 
 /-- The base model as built by the user. -/
@@ -277,6 +281,37 @@ def step (c : Cfg) (b : Base) (st : State) : Op → State
       | some s => setupScn st s
 
 def exec (c : Cfg) (b : Base) (ops : List Op) : State := ops.foldl (step c b) (State.init b)
+
+/-! ### Calls: composite API calls and the operations they are made of
+
+`begin_session(scenarios, scenario_managers, settings)` is one call that configures and resets several scenarios.  A slot is a
+(manager, scenario-name) pair: slot `i` has name `i % ns` when every manager has `ns` names.  `lower` is what the code does,
+`intent` what the call says: settings addressed to a pair are applied to that pair. -/
+
+inductive Call where
+  | op (o : Op)
+  | session (ns : Nat) (slots : List Nat) (sets : List (Nat × Dict))   -- slots in loop order; settings per addressed slot, managers in call order
+deriving Repr
+
+def pickPair (sets : List (Nat × Dict)) (i : Nat) : Option Dict := (sets.find? (fun p => p.1 == i)).map (·.2)
+
+/-- `scenario_settings.update(settings.get(manager))` over the managers of the session: the last entry with the NAME wins -/
+def pickName (ns : Nat) (sets : List (Nat × Dict)) (i : Nat) : Option Dict :=
+  ((sets.filter (fun p => p.1 % ns == i % ns)).getLast?).map (·.2)
+
+def sessionOps (byPair : Bool) (ns : Nat) (slots : List Nat) (sets : List (Nat × Dict)) : List Op :=
+  slots.flatMap fun i =>
+    (match (if byPair then pickPair sets i else pickName ns sets i) with
+     | some d => [Op.configure i d]
+     | none => []) ++ [Op.reset i]
+
+def lower (c : Cfg) : Call → List Op
+  | .op o => [o]
+  | .session ns slots sets => sessionOps c.sessionAddressesPair ns slots sets
+
+def intent : Call → List Op
+  | .op o => [o]
+  | .session ns slots sets => sessionOps true ns slots sets
 
 /-! ### The heap-free reference: one scenario alone with a freshly built model -/
 
